@@ -15,7 +15,18 @@ use crate::util::{all_strings, J};
 
 pub struct C19;
 
-const LADDER: [&str; 10] = [
+const LADDER: [&str; 21] = [
+    "(?:(a)|b)b*\\1b",
+    "(a)?b+\\1b",
+    "(a)*[bc]*\\1b",
+    "^(?:(a)|b)c*\\1c$",
+    "(a|ab|b)*c\\1",
+    "^(a|ab|b)*c\\1$",
+    "(?:(a)|b)+b*\\1",
+    "(a)?a*\\1a",
+    "(?:(\\w)\\1)+",
+    "^(?:(a|b)\\1)+$",
+    "(?:([a-z])\\1-?)+",
     "(a)(b)(c)(d)(e)(f)(g)(h)(i)(j)\\10",
     "(a)(b)(c)(d)(e)(f)(g)(h)(i)(j)\\1\\10",
     "(a)(b)(c)(d)(e)(f)(g)(h)(i)\\10",
@@ -27,7 +38,8 @@ const LADDER: [&str; 10] = [
     "((a)(b)?)\\1\\3x",
     "(a)(b)(c)(d)(e)(f)(g)(h)(i)(j)(?:\\1|\\10)",
 ];
-const LADDER_INPUTS: [&str; 12] = [
+const LADDER_INPUTS: [&str; 24] = [
+    "bbb", "bb", "bcc", "cb", "abcab", "abcb", "aabb", "aAbB", "xx-yy.", "abab", "bab", "aaa",
     "abcdefghijj", "abcdefghija0", "abcdefghijaj", "abcdefghia0", "abcdefghijkk", "abcdefghijka2", "aa1", "abba", "abab", "abcdefghijj0", "aax", "abcdefghija",
 ];
 
@@ -189,7 +201,9 @@ impl Check for C19 {
             return;
         }
         let inputs = all_strings(&['a', 'b'], maxlen);
-        let inputs_i = all_strings(&['a', 'A', 'b'], maxlen.min(3));
+        let is_br = scope_name.starts_with("BR");
+        let inputs = if is_br { all_strings(&['a', 'b'], 4) } else { inputs };
+        let inputs_i = all_strings(&['a', 'A', 'b'], if is_br { 4 } else { maxlen.min(3) });
         space::for_each_text(seg, lo, hi, &mut |_i, text| {
             if !text.contains('\\') {
                 return;
